@@ -18,18 +18,23 @@ import (
 	"unsafe"
 
 	"github.com/markkurossi/mpc/circuit"
+	"github.com/markkurossi/mpc/env"
 	"github.com/markkurossi/mpc/ot"
+	"github.com/markkurossi/mpc/p2p"
 	"github.com/markkurossi/mpc/zverif/csched"
+	"github.com/markkurossi/mpc/zverif/vnet"
 
 	"verif/bitsim"
 	"verif/circgen"
 	"verif/drbg"
+	"verif/idealot"
 	"verif/runner"
 )
 
 type cs struct {
 	Circ     int      `json:"circuit"`
-	Programs []string `json:"programs"` // one per thread: G garble, g garble with failing randomness, E eval+check newest, R release newest, r release newest twice, C compute+check
+	Programs []string `json:"programs"` // one per thread: G garble, g garble with failing randomness, E eval+check newest, R release newest, r release newest twice, C compute+check, S a whole Garbler/Evaluator session on the shared circuit
+	F        int      `json:"f,omitempty"`
 	P        int      `json:"p"`
 	E        int      `json:"e"`
 	Prefix   []int    `json:"prefix,omitempty"`
@@ -40,7 +45,12 @@ var circuits = []circgen.Desc{
 	{In: []int{2}, Out: []int{1}, Gates: []circgen.G{{2, 0, 1}, {2, 2, 0}}},            // AND-only
 	{In: []int{2}, Out: []int{2}, Gates: []circgen.G{{3, 0, 1}, {4, 2, 0}, {4, 3, 0}}}, // OR + INV
 	{In: []int{2}, Out: []int{1}, Gates: []circgen.G{{0, 0, 1}, {1, 2, 0}}},            // free-XOR only, no tables
+	{In: []int{1, 1}, Out: []int{1}, Gates: []circgen.G{{2, 0, 1}}},                    // two-party AND (sessions)
+	{In: []int{1, 1}, Out: []int{2}, Gates: []circgen.G{{2, 0, 1}, {0, 0, 1}}},         // two-party AND, XOR (sessions)
 }
+
+// sessionCircuits are the indexes of the two-party circuits.
+var sessionCircuits = []int{3, 4}
 
 type failingReader struct {
 	r     io.Reader
@@ -128,7 +138,14 @@ func (w *world) checkCompute(tid int) {
 			in[i] = x>>i&1 == 1
 		}
 		ref, _ := bitsim.Eval(c, in)
-		got, err := c.Compute([]*big.Int{big.NewInt(int64(x))})
+		var args []*big.Int
+		off := 0
+		for _, a := range c.Inputs {
+			n := int(a.Type.Bits)
+			args = append(args, big.NewInt(int64(x>>off&(1<<n-1))))
+			off += n
+		}
+		got, err := c.Compute(args)
 		if err != nil {
 			w.fail("wrong-result: thread %d Compute: %v", tid, err)
 			return
@@ -139,6 +156,47 @@ func (w *world) checkCompute(tid int) {
 				w.fail("wrong-result: thread %d Compute(%b) = %v want %v", tid, x, got, want)
 				return
 			}
+		}
+	}
+}
+
+// session runs circuit.Garbler (in the calling thread) against circuit.Evaluator
+// (in a thread of its own) on the shared circuit, for every input pair in turn,
+// over an in-memory link and the ideal OT; both must return the plain result.
+func (w *world) session(tid int, x int) {
+	c := w.c
+	n0, n1 := int(c.Inputs[0].Type.Bits), int(c.Inputs[1].Type.Bits)
+	gin := big.NewInt(int64(x & (1<<n0 - 1)))
+	ein := big.NewInt(int64(x >> n0 & (1<<n1 - 1)))
+	in := make([]bool, n0+n1)
+	for i := range in {
+		in[i] = x>>i&1 == 1
+	}
+	ref, _ := bitsim.Eval(c, in)
+	want := bitsim.Outputs(c, ref)
+	a, b := vnet.Pipe(fmt.Sprintf("G%d", tid), fmt.Sprintf("E%d", tid))
+	done := csched.MakeChan[int](1)
+	var eout []*big.Int
+	var eerr error
+	csched.GoNamed(fmt.Sprintf("T%de", tid), func() {
+		conn := p2p.NewConn(b)
+		eout, eerr = circuit.Evaluator(conn, idealot.New(), c, ein, false)
+		conn.Close()
+		done.Send(1)
+	})
+	conn := p2p.NewConn(a)
+	cfg := &env.Config{Rand: drbg.New(uint64(7000 + 10*tid + x))}
+	gout, gerr := circuit.Garbler(cfg, conn, idealot.New(), c, gin, false)
+	conn.Close()
+	done.Recv()
+	if gerr != nil || eerr != nil {
+		w.fail("wrong-result: thread %d session(%b): garbler error %v, evaluator error %v", tid, x, gerr, eerr)
+		return
+	}
+	for i := range want {
+		if i >= len(gout) || i >= len(eout) || gout[i].Cmp(want[i]) != 0 || eout[i].Cmp(want[i]) != 0 {
+			w.fail("wrong-result: thread %d session(%b): garbler got %v, evaluator got %v, plain result %v", tid, x, gout, eout, want)
+			return
 		}
 	}
 }
@@ -189,6 +247,10 @@ func (w *world) thread(tid int, prog string) func() {
 				}
 			case 'C':
 				w.checkCompute(tid)
+			case 'S':
+				w.session(tid, 3-tid%2)
+			case 's':
+				w.session(tid, 1+tid%2)
 			}
 			w.distinctScratch()
 			csched.Yield()
@@ -203,6 +265,7 @@ func (w *world) thread(tid int, prog string) func() {
 func system(k cs, w *world) func() {
 	return func() {
 		w.c = circuits[k.Circ].Build()
+		vnet.Reset()
 		for i, p := range k.Programs {
 			csched.GoNamed(fmt.Sprintf("T%d", i), w.thread(i, p))
 		}
@@ -241,7 +304,7 @@ func runCaseSharded(ctx *runner.Ctx, k cs, shard, nshards int) {
 		}
 		return
 	}
-	x := &csched.Explorer{PBound: k.P, EBound: k.E, Shard: shard, NShards: nshards, Opts: csched.Options{HashStates: true}, Stop: ctx.Expired}
+	x := &csched.Explorer{PBound: k.P, EBound: k.E, FBound: k.F, Shard: shard, NShards: nshards, Opts: csched.Options{HashStates: true}, Stop: ctx.Expired}
 	var w *world
 	x.Explore(func() {
 		w = &world{}
@@ -318,7 +381,20 @@ func work(ctx *runner.Ctx) {
 	progs2 := []string{"GER", "GRGE", "GErr", "C", "gGER", "GGERR", "GREG"}
 	progs3 := []string{"GER", "GRGE", "C", "gGE"}
 	var cases []cs
-	for ci := range circuits {
+	// whole protocol sessions sharing the circuit with each other and with direct users
+	for _, ci := range sessionCircuits {
+		for _, ps := range [][]string{{"S", "S"}, {"S", "GER"}, {"Ss", "S"}, {"S", "s", "C"}, {"S", "S", "GRGE"}} {
+			p, e, f := 2, 1, 2
+			if ctx.Quick() {
+				p, f = 1, 1
+			}
+			if ctx.Quick() && len(ps) > 2 && ci != sessionCircuits[0] {
+				continue
+			}
+			cases = append(cases, cs{Circ: ci, Programs: ps, P: p, E: e, F: f})
+		}
+	}
+	for ci := range circuits[:3] {
 		for _, a := range progs2 {
 			for _, b := range progs2 {
 				p, e := 4, 3
